@@ -111,8 +111,19 @@ CLAIMS = {
              "agreement of the database compiler with the reader (cdbmake_split/throw ordering, 'first duplicate wins' - the "
              "bounded attempt did not terminate, see DESIGN), qmail-getpw and qmail-pw2u.",
         design_ref="DESIGN.md section 5 C11"),
+    "C19": dict(
+        text="Proof (CBMC) on the unmodified qmail-pop3d.c, each verb from an arbitrary session state (any number of "
+             "messages, any marks): msgno maps n to the n-th start-up entry and refuses zero, out-of-range, non-numeric and "
+             "deleted numbers without effect; DELE marks exactly that message; RSET clears every mark (loop contract, ghost "
+             "index); RETR/TOP open exactly that message's file, never a deleted one; no verb other than QUIT unlinks or "
+             "renames; blast() (loop contract, any number and length of lines): every stored line once, unchanged, CR LF "
+             "appended, dot-stuffed, TOP limited to header + n body lines, blank line and lone dot at the end; main refuses "
+             "to run as root first. Bounded stand-in: QUIT removes exactly the marked messages for <= 6 messages.",
+        note="The correspondence of the start-up list with the directory (maildir_scan) and qmail-popup's pre-authentication "
+             "dialogue are not covered; getln/scan_ulong are used through their contracts.",
+        design_ref="DESIGN.md section 5 C19"),
 }
 
 NOT_APPLICABLE = {p: PENDING for p in
                   ["C02", "C03", "C04", "C10", "C13", "C14",
-                   "C16", "C17", "C19", "C20"]}
+                   "C16", "C17", "C20"]}
